@@ -148,6 +148,10 @@ pub struct Rec {
 pub struct MapRun {
     pub value: Option<Tree>,
     pub errors: Vec<RealErr>,
+    /// iteration order of a probe HashSet created right after the parse: pins down the hash keys
+    /// (seed *and* per-thread RandomState counter) the simulated process ended up with, so that the
+    /// determinism self-test notices if they depend on the host process's history
+    pub hash_probe: u64,
 }
 pub struct ActRun {
     pub value: Option<usize>,
@@ -176,7 +180,9 @@ fn real_parse_map(b: &Built, lexer: &StubLexer, costs: &[u8], hash_seed: u64, cl
                     Tree::Nonterm { ridx: ridx.0, pidx: None, kids }
                 },
             );
-        MapRun { value: v, errors: conv_errs(errs) }
+        let probe: Vec<u32> = (0..16u32).collect::<std::collections::HashSet<u32>>().into_iter().collect();
+        let hash_probe = fnv(&probe.iter().flat_map(|x| x.to_le_bytes()).collect::<Vec<u8>>());
+        MapRun { value: v, errors: conv_errs(errs), hash_probe }
     })
 }
 
@@ -403,7 +409,7 @@ pub fn execute(sc: &RScenario, opts: &ExecOpts) -> RunReport {
         match &ao {
             SimOutcome::Ok(a) => {
                 let value = a.value.filter(|v| *v < a.recs.len()).map(|v| build_tree(&a.recs, v));
-                (SimOutcome::Ok(MapRun { value, errors: a.errors.clone() }), astats.clone())
+                (SimOutcome::Ok(MapRun { value, errors: a.errors.clone(), hash_probe: 0 }), astats.clone())
             }
             SimOutcome::Panic(m) => (SimOutcome::Panic(m.clone()), astats.clone()),
         }
@@ -437,7 +443,7 @@ pub fn execute(sc: &RScenario, opts: &ExecOpts) -> RunReport {
             return rep;
         }
     };
-    lh = fnv_add(lh, format!("{:?}{:?}{:?}", map.value, map.errors, act.value).as_bytes());
+    lh = fnv_add(lh, format!("{:?}{:?}{:?}{}", map.value, map.errors, act.value, map.hash_probe).as_bytes());
     lh = fnv_add(lh, format!("{:?}", act.recs).as_bytes());
     j.rep.log_hash = lh;
     j.rep.n_errors = map.errors.len();
